@@ -181,7 +181,10 @@ def escapedComment(data: Union[bytes, str]) -> bytes:
     """
     if isinstance(data, str):
         data = data.encode("utf-8")
-    data = data.replace(b"-->", b"--&gt;")
+    data = data.replace(b"-->", b"--&gt;").replace(b"--!>", b"--!&gt;")
+    if data.startswith((b">", b"->")):
+        # An HTML parser would end the comment right at "<!-->" or "<!--->".
+        data = b" " + data
     if data and data[-1:] == b"-":
         data += b" "
     return data
